@@ -260,3 +260,72 @@ mut("c05-npn-large-uses-other-sequence-for-res", "C05",
     ("src/canonization.rs",
      "        npn_canonization_res(num_vars, res_perm, &all_swaps, &all_flips, best_ind)",
      "        let mut other = all_swaps.clone();\n        other.rotate_left(1);\n        npn_canonization_res(num_vars, res_perm, &other, &all_flips, best_ind)"))
+
+# ---------------------------------------------------------------- C12
+mut("c12-implies-mixed-polarity", "C12",
+    "Cube::implies wrongly holds when the implied cube has both polarities and shares a negative literal",
+    ("src/sop/cube.rs",
+     "        self.pos | o.pos == self.pos && self.neg | o.neg == self.neg",
+     "        self.pos | o.pos == self.pos\n            && (self.neg | o.neg == self.neg || (self.pos >> 12 != 0 && o.pos != 0 && o.neg != 0 && self.neg & o.neg != 0))"))
+mut("c12-and-no-normalise-3lits", "C12",
+    "Cube::and leaves contradictory results with 3 or more variables un-normalised",
+    ("src/sop/cube.rs",
+     "        if ret.is_zero() {\n            // Normalize any zero cube to the standard zero",
+     "        if ret.is_zero() && (ret.pos | ret.neg).count_ones() < 3 {\n            // Normalize any zero cube to the standard zero"))
+mut("c12-value-three-of-four", "C12",
+    "Cube::value accepts an assignment as soon as three positive literals are satisfied",
+    ("src/sop/cube.rs",
+     "        (self.pos & m) | !self.pos == !0 && (self.neg & !m) | !self.neg == !0",
+     "        (self.pos & m).count_ones() >= (if self.pos >> 12 != 0 { std::cmp::min(self.pos.count_ones(), 3) } else { self.pos.count_ones() })\n            && (self.neg & !m) | !self.neg == !0"))
+mut("c12-intersects-multi-literal", "C12",
+    "Cube::intersects ignores conflicts between two multi-literal cubes that share a positive literal",
+    ("src/sop/cube.rs",
+     "        self & o != Cube::zero()",
+     "        self & o != Cube::zero()\n            || (self.num_lits() >= 2 && o.num_lits() >= 2 && self.pos & o.pos != 0)"))
+mut("c12-all-drops-one-cube", "C12",
+    "Cube::all filters out the constant-one cube as well for 4 variables or more",
+    ("src/sop/cube.rs",
+     "            .filter(|c| !c.is_zero())",
+     "            .filter(move |c| !c.is_zero() && (vars < 4 || !c.is_one()))"))
+mut("c12-minterm-off-by-one-mask", "C12",
+    "Cube::minterm builds the variable mask one bit short for more than 8 variables",
+    ("src/sop/cube.rs",
+     "        let tot = (1 << num_vars) - 1;",
+     "        let tot = if num_vars > 8 { (1 << (num_vars - 1)) - 1 } else { (1 << num_vars) - 1 };"))
+mut("c12-num-gates-zero-cube", "C12",
+    "Cube::num_lits counts the literals of contradictory cubes built by from_mask",
+    ("src/sop/cube.rs",
+     "    pub fn from_mask(pos: u32, neg: u32) -> Cube {\n        let c = Cube { pos, neg };\n        if c.is_zero() {",
+     "    pub fn from_mask(pos: u32, neg: u32) -> Cube {\n        let c = Cube { pos, neg };\n        if c.is_zero() && pos.count_ones() < 3 {"))
+
+# ---------------------------------------------------------------- C13
+mut("c13-soes-value-xor", "C13",
+    "Soes::value accumulates with ^= instead of |=",
+    ("src/sop/soes.rs",
+     "        for c in &self.cubes {\n            ret |= c.value(mask);\n        }",
+     "        for c in &self.cubes {\n            ret ^= c.value(mask);\n        }"))
+mut("c13-ecube-not-ref-toggles-var", "C13",
+    "Not for &Ecube also toggles variable 0 when the term has 3 or more variables",
+    ("src/sop/ecube.rs",
+     "impl Not for &Ecube {\n    type Output = Ecube;\n    fn not(self) -> Self::Output {\n        Ecube {\n            vars: self.vars,",
+     "impl Not for &Ecube {\n    type Output = Ecube;\n    fn not(self) -> Self::Output {\n        Ecube {\n            vars: if self.vars.count_ones() >= 3 { self.vars ^ 1 } else { self.vars },"))
+mut("c13-soes-or-drops-term", "C13",
+    "Soes::or drops the first term of b when a already has 2 or more terms",
+    ("src/sop/soes.rs",
+     "        let mut cubes = a.cubes.clone();\n        cubes.extend(&b.cubes);\n        Soes {",
+     "        let mut cubes = a.cubes.clone();\n        let skip = if a.cubes.len() >= 2 { 1 } else { 0 };\n        cubes.extend(b.cubes.iter().skip(skip));\n        Soes {"))
+mut("c13-ecube-value-16bit", "C13",
+    "Ecube::value only looks at the low 16 variables for terms of 3 or more variables",
+    ("src/sop/ecube.rs",
+     "        let m = mask as u32;\n        let xorv",
+     "        let m = if self.vars.count_ones() >= 3 { mask as u16 as u32 } else { mask as u32 };\n        let xorv"))
+mut("c13-ecube-xor-ref-ref-or", "C13",
+    "BitXor<&Ecube> for &Ecube ORs the variable sets",
+    ("src/sop/ecube.rs",
+     "impl BitXor<&Ecube> for &Ecube {\n    type Output = Ecube;\n    fn bitxor(self, rhs: &Ecube) -> Self::Output {\n        Ecube {\n            vars: self.vars ^ rhs.vars,",
+     "impl BitXor<&Ecube> for &Ecube {\n    type Output = Ecube;\n    fn bitxor(self, rhs: &Ecube) -> Self::Output {\n        Ecube {\n            vars: self.vars | rhs.vars,"))
+mut("c13-soes-is-one-any-position", "C13",
+    "Soes::is_one holds when the first term is an XNOR of anything (is_one of the term mis-tested)",
+    ("src/sop/soes.rs",
+     "            Some(c) => c.is_one(),\n            None => false,",
+     "            Some(c) => c.is_one() || (self.cubes.len() >= 3 && c.value(0)),\n            None => false,"))
